@@ -93,5 +93,3 @@ Definition col_in (g : geom) (col : Z) : bool := (0 <=? col) && (col <? g_cols g
 Definition opt_asciib (o : option (list Z)) : bool :=
   match o with None => true | Some t => asciib t end.
 Definition is_none {A} (o : option A) : bool := match o with None => true | Some _ => false end.
-Definition width_in (width : option Z) : bool :=
-  match width with None => true | Some w => 1 <=? w end.
